@@ -58,4 +58,8 @@ theorem pyIndex_minus_one (len : Nat) (h : 0 < len) : pyIndex len (-1) = some (l
   congr 1
   omega
 
+/-- D-07e repaired in /repo: the expression of a named or dictionary `tal:attributes` entry is what the (once decoded)
+attribute value says — `createAttributeNodes` does not decode it again -/
+theorem C07_attr_decoded_once : Quirks.current.attrDecodeTwice = false := rfl
+
 end ChamVerif
